@@ -4,7 +4,8 @@
    autodiff Hessians of the element energies, chain rule through create_field) is compared on the real code (L2), not proved. *)
 From Coq Require Import ZArith List Bool Arith Permutation Reals.
 From OV.model Require Import M_C14_Dof M_C02_Assembly.
-From OV.proofs Require Import L_C14 L_C02.
+From OV.proofs Require Import L_C14 L_C02 L_C02_refs.
+From OV.gen Require Import Refs_Mechanics.
 Import ListNotations.
 
 (* every entry of the assembled matrix (duplicates summed, any value type): K[i, j] is the sum of the block entries (a, b)
@@ -67,7 +68,20 @@ Proof. exact blocks_partition_full. Qed.
    not ours to prove) and (b) the chain rule through the affine map create_field for arbitrary twice differentiable E_e (a
    standard fact not formalised here).  What IS proved is the index half: the assembler realises P^T (sum G^T K G) P exactly.
    The analytic half is compared on the real code on every run (K vs dense jax.hessian), see tools/props/c02.py.
-   NOT PROVED (refuted on the real code, known findings F5/F6): pressure-projection options, Newmark with UPredicted <> 0. *)
+   (Findings F5/F6 -- pressure-projection options, Newmark with UPredicted <> 0 -- are fixed in /repo and now covered by L2.) *)
+
+(* static well-formedness of Mechanics.py (table regenerated from the AST on every run, decided by computation): every
+   Module.attr reference resolves, no name is read that is bound nowhere, and every nested element-gradient hook has the arity
+   of FunctionSpace.default_modify_element_gradient.  (Refuted before the fix of finding F5; the conditional forms below
+   hold for any tree.) *)
+Theorem C02_refs_resolve : refs_resolve.
+Proof. exact refs_resolve_now. Qed.
+Theorem C02_refs_resolve_decided : if refs_all_ok then refs_resolve else refs_broken.
+Proof. exact refs_decided. Qed.
+Theorem C02_refs_resolve_refuted_when_flagged : refs_all_ok = false -> ~ refs_resolve.
+Proof. exact refs_resolve_refuted_when_flag_false. Qed.
+Example C02_refs_nonvacuous : 20 <= length attr_refs /\ 2 <= length hook_arities.
+Proof. exact refs_nonvacuous. Qed.
 
 Example C02_nonvacuous :
   Forall (el_in_range ex_isBc 2) ex_conns /\ blocks_symmetric 2 ex_conns ex_Ks
@@ -82,3 +96,4 @@ Print Assumptions C02_assembly_is_restriction.
 Print Assumptions C02_assembly_symmetric.
 Print Assumptions C02_assembly_is_PtKP.
 Print Assumptions C02_blocks_partition.
+Print Assumptions C02_refs_resolve.
